@@ -19,6 +19,9 @@ type c07ProgCase struct {
 	Decoy      []string `json:"decoy"` // nil: no sibling clone
 	DecoyFirst bool     `json:"decoy_first"`
 	Direct     bool     `json:"direct"` // no clones at all: Kept is emitted on the parent
+	// Nested > 0: the first Nested-1 calls of Kept go into the clone, the next into a clone OF THE CLONE that is
+	// Appended to it at once, the rest into the clone again
+	Nested int `json:"nested,omitempty"`
 }
 
 func c07ProgEmit(e *asm.Emitter, starts *[]uint32, ops []string) {
@@ -65,17 +68,28 @@ func c07ProgRun(x *cpuCtx, c c07ProgCase) (sig, what string) {
 			var kept, decoy *asm.Emitter
 			var keptStarts []uint32
 			mk := func() *asm.Emitter { return a.Clone(make([]byte, 0x40)) }
+			emitKept := func(kept *asm.Emitter, st *[]uint32) {
+				if c.Nested <= 0 || c.Nested > len(c.Kept) {
+					c07ProgEmit(kept, st, c.Kept)
+					return
+				}
+				c07ProgEmit(kept, st, c.Kept[:c.Nested-1])
+				inner := kept.Clone(make([]byte, 0x40))
+				c07ProgEmit(inner, st, c.Kept[c.Nested-1:c.Nested])
+				kept.Append(inner)
+				c07ProgEmit(kept, st, c.Kept[c.Nested:])
+			}
 			if c.Decoy != nil && c.DecoyFirst {
 				decoy = mk()
 				kept = mk()
 				c07ProgEmit(decoy, nil, c.Decoy)
-				c07ProgEmit(kept, &keptStarts, c.Kept)
+				emitKept(kept, &keptStarts)
 			} else {
 				kept = mk()
 				if c.Decoy != nil {
 					decoy = mk()
 				}
-				c07ProgEmit(kept, &keptStarts, c.Kept)
+				emitKept(kept, &keptStarts)
 				if decoy != nil {
 					c07ProgEmit(decoy, nil, c.Decoy)
 				}
@@ -151,6 +165,9 @@ func c07ProgCases() (out []c07ProgCase) {
 		for _, k := range seqs {
 			out = append(out, c07ProgCase{ProgEarly: early, Kept: k, Direct: true})
 			out = append(out, c07ProgCase{ProgEarly: early, Kept: k})
+			for n := 1; n <= len(k); n++ {
+				out = append(out, c07ProgCase{ProgEarly: early, Kept: k, Nested: n})
+			}
 			for _, d := range decoys {
 				for _, df := range []bool{false, true} {
 					out = append(out, c07ProgCase{ProgEarly: early, Kept: k, Decoy: append([]string{}, d...), DecoyFirst: df})
